@@ -217,7 +217,8 @@ func (o *Op) InWindow() bool {
 
 	until := o.Until
 	if o.From != 0 && until == 0 {
-		until = o.From + o.MaxDelta
+		// anchorFrom plus the maximum operation time delta, as a mathematical sum (no wrap-around: a huge delta means "never")
+		until = SatAdd(o.From, o.MaxDelta)
 	}
 
 	t := int64(o.Time)
@@ -368,7 +369,7 @@ func Resolve(ops []*Op) (*State, error) {
 	}
 
 	// update chain: only updates anchored strictly after the last applied create/recover (or unpublished)
-	fullT, fullN := st.LastTime, st.LastNumber
+	fullT, fullN, fullPub := st.LastTime, st.LastNumber, st.LastPub
 	consumed = map[string]bool{}
 
 	for st.UpdateC != "" {
@@ -378,6 +379,12 @@ func Resolve(ops []*Op) (*State, error) {
 
 		for _, o := range all {
 			if o.Type != Update || o.RevealCommit != c || !o.Authentic || !after(o, fullT, fullN) {
+				continue
+			}
+
+			// a create/recover that is still unpublished will be anchored after everything that is published now: published
+			// operations take precedence, so no published update follows it
+			if !fullPub && o.Published {
 				continue
 			}
 
@@ -417,4 +424,22 @@ func Describe(ops []*Op) string {
 	}
 
 	return strings.Join(s, "; ")
+}
+
+// SatAdd adds a non-negative delta to an int64, saturating at the largest int64.
+func SatAdd(a, delta int64) int64 {
+	if delta > 0 && a > (1<<63-1)-delta {
+		return 1<<63 - 1
+	}
+
+	return a + delta
+}
+
+// DeltaOf converts a protocol's maximum operation time delta (unsigned) to the signed range used for time arithmetic.
+func DeltaOf(d uint64) int64 {
+	if d > 1<<63-1 {
+		return 1<<63 - 1
+	}
+
+	return int64(d)
 }
